@@ -265,6 +265,66 @@ def g_every_decade(F, rng, step, per):
     return out
 
 
+def nd_digits(num, den, nd):
+    """(w, q): the first nd significant digits of num/den > 0, truncated: w = floor(num / den / 10^q), 10^(nd-1) <= w < 10^nd"""
+    q = len(str(num)) - len(str(den)) - nd
+    while True:
+        w = (num * 10 ** (-q)) // den if q < 0 else num // (den * 10 ** q)
+        if w >= 10 ** nd:
+            q += 1
+        elif w < 10 ** (nd - 1):
+            q -= 1
+        else:
+            return w, q
+
+
+def g_carry(F, rng, tier):
+    """G13: values in the top half of the last ulp of a binade (significand all ones plus 0.5+ .. 1-), where rounding
+    carries into the next binade: subnormal -> normal (exponent field 0), ordinary binades, and finite -> infinity;
+    written with 17, 18, 19 digits (moderate path), 25 digits and a far-out digit (big-integer path); the same fractions
+    below the half for contrast"""
+    q = tier == "quick"
+    out = []
+    full = (1 << F.mbits) - 1
+    fields = [0, 1, 2, F.bias - 1, F.bias, F.bias + F.mbits, F.emaxfield - 2, F.emaxfield - 1]
+    fields += rng.sample(range(3, F.emaxfield - 2), 6 if q else 60)
+    fracs = [(1, 2), (501, 1000), (5001, 10000), (3, 4), (9, 10), (999, 1000), (499, 1000), (1, 4), (1, 1000)]
+    for ef in fields:
+        m, e = F.decode((ef << F.mbits) | full)
+        for (a, b) in (rng.sample(fracs, 4) if q else fracs):
+            # (m + a/b) * 2^e, perturbed by a random far-out amount so that it is not a short decimal
+            num, den = (m * b + a) * 10 ** 30 + rng.randrange(1, 10 ** 29) * b, b * 10 ** 30
+            if e >= 0:
+                num <<= e
+            else:
+                den <<= -e
+            for nd in ((17, 19, 25) if q else (16, 17, 18, 19, 20, 25, 40)):
+                w, qq = nd_digits(num, den, nd)
+                for (ww, tag) in ((w, "G13:carry-dn"), (w + 1, "G13:carry-up")):
+                    ds = str(ww)
+                    t = ds.rstrip("0") or "0"
+                    i, f, ex = rng.choice(forms(t, qq + len(ds) - len(t), rng, nforms=2, long_ok=False))
+                    out.append(mk(F.name, i, f, ex, tag))
+            w, qq = nd_digits(num, den, 19)
+            out.append(mk(F.name, str(w), "0" * 30 + "1", qq, "G13:carry-far1"))
+    return out
+
+
+def g_grid(F, rng, tier):
+    """G14: d x 10^q for every single digit d and EVERY decimal exponent q the moderate path accepts (and a few beyond
+    both ends), plus two-digit and 19-digit significands at every q: whatever is indexed or bounded by the decimal
+    exponent is exercised at each of its values, including the first and last"""
+    out = []
+    for qq in range(F.p10_lo - 4, F.p10_hi + 4):
+        for d in range(1, 10):
+            out.append(mk(F.name, str(d), "", qq, "G14:grid"))
+        w = rng.randrange(11, 100)
+        out.append(mk(F.name, str(w), "", qq - 1, "G14:grid2"))
+        w = rng.randrange(10 ** 18, 10 ** 19)
+        out.append(mk(F.name, str(w), "", qq - 18, "G14:grid19"))
+    return out
+
+
 def g_floats_exact(F, rng, n):
     """exactly representable values (the float itself, not the midpoint)"""
     out = []
@@ -684,6 +744,10 @@ def g_chains(F, rng, tier):
     for ds in ("1", "9", "17", "123456789", "9007199254740993", "18446744073709551615", "99999999999999999999", "5"):
         for lo in (-F.fast_exp - 3, F.fast_exp - 2, F.disg_exp - 2, F.p10_lo - 2, F.p10_hi - len(ds) - 2, -5):
             out.append(chain_of(F, [(ds, e) for e in range(lo, lo + 6)], rng, "C09:succ-exp"))
+    # every decade, first to last (and beyond): 1eq < 2eq < ... < 9eq < 1e(q+1); short forms only (what a caller writes)
+    for qq in range(F.p10_lo - 3, F.p10_hi + 3):
+        mem = [{"int": str(d), "frac": "", "exp": qq} for d in range(1, 10)] + [{"int": "1", "frac": "", "exp": qq + 1}, {"int": "15", "frac": "", "exp": qq}]
+        out.append({"kind": "chain", "fmt": F.name, "tag": "C09:decade", "members": mem})
     # range ends
     for (M, k) in ((1, F.etiny - 1), (1, F.etiny), ((1 << F.mbits), F.etiny), ((1 << (F.p + 1)) - 1, F.emax - F.p)):
         ds, e10 = exact_decimal(M, k)
